@@ -429,6 +429,13 @@ class List(list, base.Symbolic, pg_typing.CustomTyping):
       if old_value is value:
         return None
 
+    if (should_insert and isinstance(value, base.Symbolic)
+        and value.sym_parent is self
+        and any(v is value for v in self.sym_values())):
+      # An insertion always fills a new slot: a value that already is an element
+      # of this list is copied (it must not end up in the list twice).
+      value = value.clone()
+
     new_value = self._formalized_value(index, value)
     if index < len(self):
       if should_insert:
